@@ -8,6 +8,21 @@ VERIF = os.path.dirname(os.path.dirname(os.path.abspath(__file__)))
 ALL = [f"C{i:02d}" for i in range(1, 21)]
 
 CHECKS = {
+    "C12": dict(
+        category="exploration",
+        technique="bounded-exhaustive enumeration of access variants x scopes x contexts x every prefix and case, expected label set from the generator's model",
+        text=("Exhaustive enumeration over generated workspaces whose user entities share a stem no intrinsic or keyword "
+              "starts with: 6 ways the using scope reaches the library module (direct USE, ONLY list, rename, through a public "
+              "or default-PRIVATE intermediate module, not at all) x 3 kinds of using scope (program, module procedure with "
+              "host declarations and dummy arguments, internal procedure) x up to 9 completion contexts (statement body with "
+              "and without text after the cursor, CALL, USE, USE ... ONLY:, TYPE(, CLASS(, obj%, obj%component%) x every "
+              "prefix from the stem to the full name of every expected entity x lower/upper case. The offered labels that "
+              "start with the prefix must be exactly the accessible entities of the classes the context admits (inherited "
+              "components and bindings included), and nothing offered may fail to match the prefix."),
+        note=("Trusted: the expected sets in expected()/imported() of vf/checks/c12.py, written from the property text. "
+              "Subroutine names in expressions, functions and objects after CALL and program-unit names are tolerated."),
+        design="DESIGN.md §4 C12",
+    ),
     "C05": dict(
         category="exploration",
         technique="bounded-exhaustive enumeration of generated multi-file workspaces with a reference resolver on the model and a source map; every use site queried",
